@@ -126,7 +126,8 @@ func (c *Calcium) processVirtualizationOutStream(
 		scanner := bufio.NewScanner(outStream)
 		scanner.Split(splitFunc)
 		for scanner.Scan() {
-			bs := scanner.Bytes()
+			// the token is only valid until the next Scan, but it is consumed asynchronously: copy it
+			bs := append(make([]byte, 0, len(scanner.Bytes())+1), scanner.Bytes()...)
 			if split != 0 {
 				bs = append(bs, split)
 			}
